@@ -88,9 +88,12 @@ class CCQR(QR):
         p = np.arange(n)
         k = min(m, n)
         row = 0  # first row of R that has not been eliminated yet
+        # A residual at the rounding level of the sensor's own norm is what is
+        # left of an exactly zero residual (e.g. of a duplicated sensor).
+        tol = m * np.finfo(R.dtype).eps * np.sqrt(np.sum(np.abs(R) ** 2, axis=0))
 
         for j in range(k):
-            u, i_piv = qr_reflector(R[row:, j:], sensor_costs[p[j:]])
+            u, i_piv = qr_reflector(R[row:, j:], sensor_costs[p[j:]], tol[p[j:]])
             # Track column pivots
             i_piv += j
             p[[j, i_piv]] = p[[i_piv, j]]
@@ -109,7 +112,7 @@ class CCQR(QR):
         return self
 
 
-def qr_reflector(r, costs):
+def qr_reflector(r, costs, tol=None):
     """
     Get the best (Householder) reflector with column pivoting and
     a cost function.
@@ -125,6 +128,10 @@ def qr_reflector(r, costs):
 
     costs: np.ndarray, shape [n_examples,]
         Costs for each column (sensor location) in r
+
+    tol: np.ndarray, shape [n_examples,], optional
+        Norms up to which a column of r counts as a zero residual
+        (default: only exact zeros do).
 
     Returns
     -------
@@ -143,7 +150,7 @@ def qr_reflector(r, costs):
 
     dlen = dlens[i_piv]
 
-    if dlen > 0:
+    if dlen > (0 if tol is None else tol[i_piv]):
         u = r[:, i_piv] / dlen
         u[0] += np.sign(u[0]) + (u[0] == 0)
         u /= np.sqrt(abs(u[0]))
